@@ -694,16 +694,20 @@ class _Shadow:
 
     def _model(self):
         if self.model is None:
-            s = z3.Solver()
-            s.set("timeout", 10000)
-            s.add(*CTX.pc)
-            if s.check() == z3.sat:
-                self.model = s.model()
-            else:
-                self.model = self._candidate_model()
+            # cheap first: admissible float inputs from the contract's generators; then a z3 model of the path condition
+            try:
+                self.model = self._candidate_model(tries=12)
+            except UnmodelledDependency:
+                s = z3.Solver()
+                s.set("timeout", 10000)
+                s.add(*CTX.pc)
+                if s.check() == z3.sat:
+                    self.model = s.model()
+                else:
+                    self.model = self._candidate_model(tries=60)
         return self.model
 
-    def _candidate_model(self):
+    def _candidate_model(self, tries=40):
         """fallback when z3 finds no model of a non-linear path condition in time: admissible float inputs drawn
         from the contract's generators; accepted if every precondition / branch condition of the path evaluates true"""
         from .sym import float_eval
@@ -711,7 +715,7 @@ class _Shadow:
         sink = CTX.sink
         if sink is None or not sink.inputs:
             raise UnmodelledDependency("shadow instance: no model of the path condition available")
-        for t in range(40):
+        for t in range(tries):
             rng = _np.random.default_rng(1000 + t)
             env = {}
             for name, shape in sink.inputs.items():
